@@ -523,6 +523,8 @@ class InterestNameField(Field):
                 elif typ == Component.TYPE_PARAMETERS_SHA256:
                     # Params Sha256 can occur at most once
                     if need_digest and digest_pos is None:
+                        if len(comp) != 34 or comp[1] != 32:
+                            raise ValueError('ParametersSha256DigestComponent must have a 32-byte value')
                         digest_pos = i
                     else:
                         raise ValueError('unnecessary ParametersSha256DigestComponent in name')
